@@ -41,6 +41,9 @@ Pool == {
   [extend |-> [units |-> [lb |-> [ratio |-> 10]]]],                                                                          \* a best unit changes its place in the list
   [extend |-> [units |-> [lb |-> [aliases |-> <<"libra">>]]]],                                                               \* a key that only the extend adds ...
   [quantity |-> << [quantity |-> "mass", best |-> [metric |-> <<"g", "kg">>, imperial |-> <<"oz", "libra">>]] >>],           \* ... named by a best list
+  [extend |-> [precedence |-> "override", units |-> [kg |-> [aliases |-> <<>>], min |-> [names |-> <<>>]]]],               \* override with nothing: the list is cleared
+  [quantity |-> << [quantity |-> "mass", units |-> [unified |-> << [names |-> <<"stone", "stone">>, symbols |-> <<"st">>, ratio |-> 6350, expand_si |-> FALSE] >>]] >>],   \* one unit, the same key twice
+  [extend |-> [units |-> [l |-> [aliases |-> <<"l">>]]]],                                                                      \* an alias the unit already has
   [extend |-> [units |-> [zzz |-> [aliases |-> <<"x">>]]]],                                                                  \* unknown unit
   [extend |-> [units |-> [g |-> [aliases |-> <<"x1">>], gram |-> [aliases |-> <<"x2">>]]]],                                  \* two keys, one unit
   [extend |-> [units |-> [l |-> [symbols |-> <<"lt">>], cup |-> [aliases |-> <<"tsp">>]]]],                                  \* alias collides with another unit
